@@ -613,7 +613,9 @@ def c23(tier, seed):
         "of a MultiCrossBlock; both samplers exhausted, validated by MCTrace, enumerated by MCEnum"), t0, machinery_error=err)
 
 
-SMGEN_REFUSALS = ("not supported by SMGen", "Unsupported level", "are not supported by SMGen")
+# SMGen's unsupported-feature errors (smgen.py / scattered_map_core.py _cexit): outside C29's quantifier
+SMGEN_REFUSALS = ("not supported by SMGen", "Unsupported level", "are not supported by SMGen", "Unsupported factor",
+                  "Unsupported Factor", "Unsupported DerivedLevel")
 
 
 def c29(tier, seed):
